@@ -1,4 +1,7 @@
 // ===== CONTRACTS: MODE on channels (C08) and the MODE dispatcher (C11) =====
+// the text of a MODE query (324) is the Display of ChannelModes: a trusted stub in the prelude (total, text not modelled), pinned to its text
+//@assumed config.rs fmt::Display+for+ChannelModes::fmt sha=dbaf02d7a803 units=modechan
+//@assumed config.rs fmt::Display+for+UserModes::fmt sha=4a6ca83eabc9 units=oper
 //@assumed utils.rs normalize_sourcemask sha=1e898ad3f656 units=modeletter
 // ASSUMED (status A): completes nick / nick@host / nick!user with wildcards (byte-level str::find and slicing are outside the prelude)
 pub uninterp spec fn norm_mask_spec(mask: Seq<char>) -> Seq<char>;
@@ -166,7 +169,7 @@ impl MainState {
 //@end
 
 // ---- block B: the effect of one letter (second `match mchar`) ----
-//@block state/srv_query_cmds.rs MainState::process_mode_channel mode_apply_letter unit=modeletter props=C08,C05 rules=R2,R14,R18 from=~|match mchar \{| fromk=2 balanced=1
+//@block state/srv_query_cmds.rs MainState::process_mode_channel mode_apply_letter unit=modeletter props=C08,C05,C10,C07 rules=R2,R14,R18 from=~|match mchar \{| fromk=2 balanced=1
 //@iterize ban,exception,inv_ex
 //@head
     pub async fn mode_apply_letter<'a>(&self, conn_state: &mut ConnState, chanobj: &mut Channel, chum: &ChannelUserModes, target: &'a str, mchar: char,
@@ -196,7 +199,7 @@ impl MainState {
             conn_same_but_stream(*final(conn_state), *old(conn_state)), // @prop C08
             chan_wf(*final(chanobj)), // @prop C04
             // a change needs the rank the statement demands; everything the actor is not entitled to stays as it was
-            mode_frame(o, *final(chanobj), *chum), // @prop C08
+            mode_frame(o, *final(chanobj), *chum), // @prop C08,C10,C07
             r is Ok ==> (r->Ok_0).0 == vstate(ms, idx + 1, args.len() as int).0, // @prop C08
             r is Ok ==> args_inv(ms, args, idx + 1, IteratorSpec::remaining(&*final(margs_it)), if_half_op), // @prop C05
 //@open
@@ -349,7 +352,7 @@ impl MainState {
 //@end
 
 // ---- the handler: the two blocks chained over every letter of every mode string; the announcement ----
-//@fn state/srv_query_cmds.rs MainState::process_mode_channel unit=modechan props=C08,C05 rules=R2,R6,R14
+//@fn state/srv_query_cmds.rs MainState::process_mode_channel unit=modechan props=C08,C05,C10,C07 rules=R2,R6,R14
 //@blockcall mode_check_privs
                     self.mode_check_privs(conn_state, chum, target, mchar, if_op, if_half_op).await?;
 //@blockcall mode_apply_letter
@@ -368,7 +371,7 @@ impl MainState {
             conn_same_but_stream(*final(conn_state), *old(conn_state)), // @prop C08
             chan_wf(*final(chanobj)), // @prop C04
             // a change needs the rank the statement demands; everything the actor is not entitled to stays as it was
-            mode_frame(*old(chanobj), *final(chanobj), *chum), // @prop C08
+            mode_frame(*old(chanobj), *final(chanobj), *chum), // @prop C08,C10,C07
             // an actor entitled to them (half-operator or above) gets every flag / key / limit letter applied, in order, with the sign in force
             r is Ok && half_op(*chum) && modes@.len() > 0 ==> mv_of(final(chanobj).modes) == mv_all(modes@, modes@.len() as int, mv_of(old(chanobj).modes)), // @prop C08
             // the announcement reaches every member once or nobody ...
